@@ -259,6 +259,18 @@ class Program:
         if dist:
             self.normalisation_log += dist
             self._reindex()
+        from .normalize import private_name_role_renames
+
+        pren = private_name_role_renames(self)
+        if pren:
+            self.normalisation_log += pren
+            self._reindex()
+        from .normalize import specialise_module_closures
+
+        spec = specialise_module_closures(self)
+        if spec:
+            self.normalisation_log += spec
+            self._reindex()
         unfolded = unfold_missing_predicates(self)
         if unfolded:
             self.normalisation_log += unfolded
@@ -562,6 +574,10 @@ class Program:
             if base.name in ("builtins.type", "typing.Type"):
                 inner = self.ann_type(mod, ann.slice, self_cls)
                 return TypeRef(inner.name, inner.args, True) if inner else None
+            if base.name in ("typing.ClassVar", "typing.Final", "typing.Annotated", "typing.Required", "typing.NotRequired", "typing.ReadOnly"):
+                # qualifiers say where / how the name is bound, not what the value is
+                inner_ann = ann.slice.elts[0] if isinstance(ann.slice, ast.Tuple) and ann.slice.elts else ann.slice
+                return self.ann_type(mod, inner_ann, self_cls)
             elts = ann.slice.elts if isinstance(ann.slice, ast.Tuple) else [ann.slice]
             return TypeRef(base.name, tuple(self.ann_type(mod, e, self_cls) for e in elts))
         d = dotted(ann)
